@@ -97,6 +97,22 @@ theorem contOp_nf {W : World} (h : NoFail W) (d : Dbg) :
 @[simp] theorem bump_t (d : Dbg) (k : Op) : (bump d k).t = d.t := rfl
 @[simp] theorem bump_bps (d : Dbg) (k : Op) : (bump d k).bps = d.bps := rfl
 
+theorem setregsOp_cases (W : World) (r : RegFile) (d : Dbg) :
+    (∃ d', setregsOp W r d = (.err .ptrace, d')) ∨
+    (∃ d', setregsOp W r d = (.ok (), d') ∧ d'.t = { d.t with regs := r }) := by
+  unfold setregsOp
+  by_cases f : W.fails .setregs (d.cnt .setregs) = true
+  · exact Or.inl ⟨_, by simp only [f, if_true]; rfl⟩
+  · exact Or.inr ⟨_, by simp only [f]; rfl, rfl⟩
+
+theorem pokeOp_cases (W : World) (a w : Nat) (d : Dbg) :
+    (∃ d', pokeOp W a w d = (.err .ptrace, d')) ∨
+    (∃ d', pokeOp W a w d = (.ok (), d') ∧ d'.t = { d.t with mem := poke d.t.mem a w }) := by
+  unfold pokeOp
+  by_cases f : W.fails .poke (d.cnt .poke) = true
+  · exact Or.inl ⟨_, by simp only [f, if_true]; rfl⟩
+  · exact Or.inr ⟨_, by simp only [f]; rfl, rfl⟩
+
 theorem isErrno_false (v : Nat) (h : v < W64 - 4095) : isErrno v = false := by
   unfold isErrno W64 at *; simp; omega
 
@@ -240,5 +256,116 @@ theorem munmapH_ok {W : World} (h : NoFail W) (c : Ccx) (addr : Nat) (d : Dbg) (
               entered := d.t.entered, wild := d.t.wild } : Tracee) = preMunmap c addr d.t := rfl
   simp only [e, hstep, syscallRet_rax, ne_eq, not_true_eq_false, if_false, pokeOp_nf h, emit_t]
   refine ⟨?_, ?_, ?_⟩ <;> first | exact True.intro | rfl
+
+/-! ### the complete successful `call_fn_raw` -/
+
+/-- the saved context of a call made in thread state `t0` at `pc` -/
+def ccxOf (pc : Addr) (t0 : Tracee) : Ccx := ⟨pc, t0.regs, peek t0.mem pc⟩
+
+/-- the thread at the callee's first instruction -/
+def entryT (W : World) (pc fnAddr : Nat) (args : List Nat) (t0 : Tracee) : Tracee :=
+  atEntry (preCall (ccxOf pc t0) W.mmapRes fnAddr args (postJump (ccxOf pc t0) W.mmapRes (postMmap W.mmapRes (ccxOf pc t0) t0)))
+
+/-- the thread after the complete successful `call_fn_raw` -/
+def finalT (W : World) (pc fnAddr : Nat) (args : List Nat) (t0 : Tracee) : Tracee :=
+  let c := ccxOf pc t0
+  let t3 := postCall W c W.mmapRes fnAddr args (postJump c W.mmapRes (postMmap W.mmapRes c t0))
+  let t5 := postMunmap c W.mmapRes { t3 with regs := c.regs }
+  { t5 with regs := c.regs, mem := poke t5.mem c.pc c.text }
+
+theorem res_of_fst {α} {x : Res α × Dbg} {r : Res α} (h : x.1 = r) : x = (r, x.2) := by
+  cases x; simp at h; simp [h]
+
+theorem callFnRaw_ok {W : World} (h : NoFail W) (pc fnAddr : Nat) (args : List Nat) (d : Dbg)
+    (hb : Bytes d.t.mem) (hrip : d.t.regs Rip = pc) (hp : W.mmapRes < W64 - 4095)
+    (hcallee : ∀ t, (W.callee t).pages = t.pages) :
+    (callFnRaw W pc fnAddr args d).1 = .ok () ∧ (callFnRaw W pc fnAddr args d).2.bps = d.bps
+    ∧ (callFnRaw W pc fnAddr args d).2.t = finalT W pc fnAddr args d.t := by
+  have hc : (ccxOf pc d.t).text < W64 := peek_lt _ _ hb
+  have hr : (ccxOf pc d.t).regs Rip = (ccxOf pc d.t).pc := hrip
+  -- CallContext::new
+  simp only [callFnRaw, ccxNew, bind_eq, peekOp_nf h, getregsOp_nf h, pure_eq, emit_t, bump_t]
+  have ec : (⟨pc, d.t.regs, peek d.t.mem pc⟩ : Ccx) = ccxOf pc d.t := rfl
+  simp only [ec]
+  generalize hd1 : emit (bump (emit (bump d Op.peek) (Ev.peek pc true)) Op.getregs) (Ev.getregs true) = d1
+  have ht1 : d1.t = d.t := by rw [← hd1]; rfl
+  have hb1 : d1.bps = d.bps := by rw [← hd1]; rfl
+  -- the body
+  obtain ⟨m1, m2, m3⟩ := mmapH_ok h (ccxOf pc d.t) d1 hc hp hr
+  obtain ⟨j1, j2, j3⟩ := jumpH_ok h (ccxOf pc d.t) W.mmapRes (mmapH W (ccxOf pc d.t) d1).2 hc hr
+  obtain ⟨c1, c2, c3⟩ := callTramp_ok h (ccxOf pc d.t) W.mmapRes fnAddr args (jumpH W (ccxOf pc d.t) W.mmapRes (mmapH W (ccxOf pc d.t) d1).2).2
+  generalize hdA : (mmapH W (ccxOf pc d.t) d1).2 = dA at *
+  generalize hdB : (jumpH W (ccxOf pc d.t) W.mmapRes dA).2 = dB at *
+  generalize hdC : (callTramp W (ccxOf pc d.t) W.mmapRes fnAddr args dB).2 = dC at *
+  have hin : W.mmapRes ∈ (emit { bump dC .setregs with t := { dC.t with regs := (ccxOf pc d.t).regs } } (.setregs (ccxOf pc d.t).regs true)).t.pages := by
+    simp only [emit_t, c3, postCall, hcallee, atEntry, preCall, j3, postJump, preJump, m3, postMmap]
+    simp
+  obtain ⟨u1, u2, u3⟩ := munmapH_ok h (ccxOf pc d.t) W.mmapRes
+    (emit { bump dC .setregs with t := { dC.t with regs := (ccxOf pc d.t).regs } } (.setregs (ccxOf pc d.t).regs true)) hc hr hin
+  have body : callBody W (ccxOf pc d.t) fnAddr args d1 =
+      (.ok (), (munmapH W (ccxOf pc d.t) W.mmapRes
+        (emit { bump dC .setregs with t := { dC.t with regs := (ccxOf pc d.t).regs } } (.setregs (ccxOf pc d.t).regs true))).2) := by
+    simp only [callBody, bind_eq]
+    rw [res_of_fst m1, hdA]; simp only []
+    rw [res_of_fst j1, hdB]; simp only []
+    rw [res_of_fst c1, hdC]; simp only [setregsOp_nf h]
+    rw [res_of_fst u1]
+  generalize hdD : (munmapH W (ccxOf pc d.t) W.mmapRes
+        (emit { bump dC .setregs with t := { dC.t with regs := (ccxOf pc d.t).regs } } (.setregs (ccxOf pc d.t).regs true))).2 = dD at *
+  simp only [withCcx, body, setregsOp_nf h, pokeOp_nf h, emit_t, emit_bps, bump_bps]
+  refine ⟨True.intro, ?_, ?_⟩
+  · simp [u2, c2, j2, m2, hb1]
+  · simp only [finalT, u3, emit_t, c3, j3, m3, ht1]
+
+/-- writing the word read from `c` restores `c`'s bytes inside the word, whatever was there -/
+theorem poke_peek_byte (X c : Code) (hB : Bytes c) (pc a : Nat) (h1 : pc ≤ a) (h2 : a < pc + 8) :
+    poke X pc (peek c pc) a = c a := by
+  have hw : a = pc ∨ a = pc + 1 ∨ a = pc + 2 ∨ a = pc + 3 ∨ a = pc + 4 ∨ a = pc + 5 ∨ a = pc + 6 ∨ a = pc + 7 := by omega
+  have e : poke X pc (peek c pc) a = poke c pc (peek c pc) a := by
+    unfold poke
+    rcases hw with rfl | rfl | rfl | rfl | rfl | rfl | rfl | rfl <;> simp
+  rw [e, poke_peek_id c pc hB]
+
+theorem finalT_regs (W : World) (pc fnAddr : Nat) (args : List Nat) (t0 : Tracee) :
+    (finalT W pc fnAddr args t0).regs = t0.regs := rfl
+
+theorem finalT_pages (W : World) (pc fnAddr : Nat) (args : List Nat) (t0 : Tracee)
+    (hcallee : ∀ t, (W.callee t).pages = t.pages) :
+    (finalT W pc fnAddr args t0).pages = t0.pages := by
+  simp [finalT, postMunmap, preMunmap, postCall, hcallee, atEntry, preCall, postJump, preJump, postMmap]
+
+/-- the registers with which the callee is entered -/
+def callRegs (W : World) (fnAddr : Nat) (args : List Nat) (t0 : Tracee) : RegFile :=
+  ((prepare t0.regs args).set Rax fnAddr).set Rip W.mmapRes
+
+theorem finalT_entered (W : World) (pc fnAddr : Nat) (args : List Nat) (t0 : Tracee)
+    (hcallee : ∀ t, (W.callee t).entered = t.entered) :
+    (finalT W pc fnAddr args t0).entered = t0.entered ++ [(fnAddr, argRegs.map (callRegs W fnAddr args t0))] := by
+  have : (((prepare t0.regs args).set Rax fnAddr).set Rip W.mmapRes) Rax = fnAddr := by
+    unfold RegFile.set; rw [if_neg (by decide)]; simp
+  simp [finalT, postMunmap, preMunmap, postCall, hcallee, atEntry, preCall, postJump, preJump, postMmap, preMmap, ccxOf, callRegs, this]
+
+theorem finalT_wild (W : World) (pc fnAddr : Nat) (args : List Nat) (t0 : Tracee)
+    (hcallee : ∀ t, (W.callee t).wild = t.wild) :
+    (finalT W pc fnAddr args t0).wild = t0.wild := by
+  simp [finalT, postMunmap, preMunmap, postCall, hcallee, atEntry, preCall, postJump, preJump, postMmap, preMmap]
+
+theorem finalT_mem (W : World) (pc fnAddr : Nat) (args : List Nat) (t0 : Tracee) (hb : Bytes t0.mem) (a : Nat) :
+    (finalT W pc fnAddr args t0).mem a =
+      if pc ≤ a ∧ a < pc + 8 then t0.mem a
+      else if inPage W.mmapRes a then 0
+      else (W.callee (entryT W pc fnAddr args t0)).mem a := by
+  by_cases hw : pc ≤ a ∧ a < pc + 8
+  · simp only [hw, and_self, if_true]
+    simp only [finalT, ccxOf]
+    exact poke_peek_byte _ _ hb pc a hw.1 hw.2
+  · simp only [hw, if_false]
+    simp only [finalT, ccxOf, postMunmap, preMunmap]
+    rw [poke_other _ _ _ _ hw, poke_other _ _ _ _ hw]
+    by_cases hpg : inPage W.mmapRes a = true
+    · simp [hpg]
+    · simp only [hpg]
+      rw [poke_other _ _ _ _ hw]
+      rfl
 
 end BsVerif.Call
